@@ -335,6 +335,8 @@ struct Stats {
 	batch_entries_checked: u64,
 	/// builders obtained from `Default::default()` / left behind by `std::mem::take` instead of `new()`
 	builders_from_default: u64,
+	/// clones of a builder taken mid-sequence that went on with the remaining inserts
+	clones_continued: u64,
 }
 
 // ---------------------------------------------------------------------------------------------------------------
@@ -627,9 +629,22 @@ fn feed<S: Sink>(case: &Case, sink: S, st: &mut Stats) -> Fed<S::Out> {
 				}
 			};
 			let mut snap = None;
+			let mut cont = None;
 			for (i, s) in inserts.iter().enumerate() {
 				if *clone_at == Some(i) {
 					snap = Some((exp.clone(), b.clone()));
+					// a second clone goes on with the same inserts as the original: a copy of a builder is a builder
+					cont = Some(b.clone());
+				}
+				if let Some(c) = cont.as_mut() {
+					if let Err(caught) = guarded(|| insert_array(c, s).is_ok()) {
+						findings.push(Finding {
+							sig: "panic-in-insert-on-clone/array".to_string(),
+							detail: format!("insert #{i} into a clone of the builder panicked: {:?} at {}", caught.msg, caught.loc),
+							observed: json!({"insert": i, "panic": caught.msg, "at": caught.loc}),
+						});
+						cont = None;
+					}
 				}
 				let got = guarded(|| insert_array(&mut b, s));
 				if !step(&mut exp, shape, i, None, s, got, &mut findings, st) {
@@ -639,6 +654,10 @@ fn feed<S: Sink>(case: &Case, sink: S, st: &mut Stats) -> Fed<S::Out> {
 			let out = sink.take(b);
 			if let Some((e, c)) = snap {
 				side.push((e, Direct.take(c)));
+			}
+			if let Some(c) = cont {
+				st.clones_continued += 1;
+				side.push((exp.clone(), Direct.take(c)));
 			}
 			Fed { shape, exp, findings, out: Some(out), side }
 		}
@@ -659,9 +678,22 @@ fn feed<S: Sink>(case: &Case, sink: S, st: &mut Stats) -> Fed<S::Out> {
 				}
 			};
 			let mut snap = None;
+			let mut cont = None;
 			for (i, (k, s)) in inserts.iter().enumerate() {
 				if *clone_at == Some(i) {
 					snap = Some((exp.clone(), b.clone()));
+					// a second clone goes on with the same inserts as the original: a copy of a builder is a builder
+					cont = Some(b.clone());
+				}
+				if let Some(c) = cont.as_mut() {
+					if let Err(caught) = guarded(|| insert_object(c, k, s).is_ok()) {
+						findings.push(Finding {
+							sig: "panic-in-insert-on-clone/object".to_string(),
+							detail: format!("insert #{i} into a clone of the builder panicked: {:?} at {}", caught.msg, caught.loc),
+							observed: json!({"insert": i, "panic": caught.msg, "at": caught.loc}),
+						});
+						cont = None;
+					}
 				}
 				let got = guarded(|| insert_object(&mut b, k, s));
 				if !step(&mut exp, shape, i, Some(k), s, got, &mut findings, st) {
@@ -671,6 +703,10 @@ fn feed<S: Sink>(case: &Case, sink: S, st: &mut Stats) -> Fed<S::Out> {
 			let out = sink.take(b);
 			if let Some((e, c)) = snap {
 				side.push((e, Direct.take(c)));
+			}
+			if let Some(c) = cont {
+				st.clones_continued += 1;
+				side.push((exp.clone(), Direct.take(c)));
 			}
 			Fed { shape, exp, findings, out: Some(out), side }
 		}
@@ -1640,6 +1676,7 @@ fn record(case: &Case, ev: &mut Evidence, agg: &mut Agg) {
 	let st = &rep.st;
 	ev.count("inserts_ok", st.inserts_ok);
 	ev.count("builders_obtained_from_default", st.builders_from_default);
+	ev.count("clones_continued_with_inserts", st.clones_continued);
 	ev.count("inserts_failed", st.inserts_failed);
 	ev.count("to_rpc_params_results_judged", st.builds);
 	ev.count("results_judged_after_a_failed_insert", st.builds_after_failed);
